@@ -111,7 +111,22 @@ class SendDriver:
             sig, body = 'sah', ['t%d' % i, fds]
         else:
             sig, body = 'a{sh}s', [dict(('k%d' % j, fd) for j, fd in enumerate(fds)), 't%d' % i]
-        if i % 2:
+        nlog = len(self.t.log)
+        if any(not isinstance(x, int) or x < 0 for x in fds):
+            # a descriptor the library may well refuse: then nothing of that message - none of its descriptors either -
+            # has been handed to the transport
+            res = []
+            try:
+                d = self.conn.callRemote('/p%d' % i, 'M%d' % i, interface='org.ex.I', destination='org.ex.D',
+                                         signature=sig, body=body, expectReply=False)
+                d.addErrback(res.append)
+            except Exception as ex:
+                res.append(ex)
+            if res:
+                self.refused = True
+                stray = [e for e in self.t.log[nlog:] if e[0] == 'fd']
+                assert not stray, 'a refused message left its descriptors %r on the transport' % ([e[1] for e in stray],)
+        elif i % 2:
             self.conn.callRemote('/p%d' % i, 'M%d' % i, interface='org.ex.I', destination='org.ex.D',
                                  signature=sig, body=body, expectReply=(i % 3 != 0))
         else:
@@ -212,7 +227,7 @@ def header_fds(raw):
 
 
 def send_cfg(plan, invs=True):
-    mod = '---- MODULE MC_FdSend ----\nEXTENDS FdSend\niPlan == %s\n====\n' % to_tla(tuple(tuple(p) for p in plan))
+    mod = '---- MODULE MC_FdSend ----\nEXTENDS FdSend, Integers\niPlan == %s\n====\n' % to_tla(tuple(tuple(p) for p in plan))
     cfg = 'CONSTANTS\n Plan <- iPlan\n'
     return mod, cfg
 
@@ -261,6 +276,8 @@ def run(tier, seed):
         [[], [4, 5], [5, 4], [1]],
         # one descriptor passed twice in a message with another in between
         [[5, 6, 5], [7], [8, 9, 8, 9]],
+        # a message one of whose descriptors is no descriptor at all
+        [[5, -1], [7]], [[4], [6, 5, -1, 3], [2]],
         # the 2nd and the 12th message are the same object sent twice (same shape, same descriptors)
         [[1], [4], [], [2], [], [], [3, 3], [], [], [], [], [4]],
     ]
@@ -285,6 +302,8 @@ def run(tier, seed):
             chk.violation('sender raised %s for plan %r' % (type(ex).__name__, plan),
                           dict(kind='exception', module='c20', trace=core.traceback_str()))
             continue
+        if getattr(drv, 'refused', False):
+            continue              # (a message the library refused is outside FdSend.tla; the driver checked what was left behind)
         core.validate_and_report(chk, 'MC_FdSend', ['sent', 'wire'], SACTIONS, [tr], cfg, ['FdsAhead', 'NoStrayFds'],
                                  'c20', {'plan': plan}, 'send plan %r' % (plan,), nproc=1,
                                  extra={'MC_FdSend.tla': mod})
